@@ -70,7 +70,7 @@ func combine(checks ...func(*History, *BlockRecord) []Violation) func(*History, 
 func mixedWeights() map[string]int {
 	return map[string]int{
 		"amm.swap_in": 10, "amm.swap_out": 8, "amm.swap_in_2hop": 3, "amm.swap_out_2hop": 3, "amm.swap_by_denom": 3,
-		"amm.join": 8, "amm.exit": 8, "bank.send_to_pool": 2, "bank.send": 1, "amm.feed_external_liquidity": 2, "tier.set_portfolio": 2,
+		"amm.join": 8, "amm.exit": 8, "bank.send_to_pool": 2, "bank.send": 1, "amm.feed_external_liquidity": 2, "tier.set_portfolio": 2, "amm.create_pool": 1,
 		"stablestake.bond": 6, "stablestake.unbond": 4,
 		"leveragelp.open": 6, "leveragelp.close": 5, "leveragelp.update_stop_loss": 1, "leveragelp.claim_rewards": 1, "leveragelp.close_positions": 2,
 		"perpetual.open": 7, "perpetual.close": 5, "perpetual.update_stop_loss": 1, "perpetual.update_take_profit": 1, "perpetual.close_positions": 2,
@@ -343,7 +343,7 @@ func c12ExtraOps(h *History, g *G) []*Op {
 var ProfileC12 = &Profile{
 	MultiMsg: true,
 	ID:       "C12", Name: "commitments", MinBlocks: 5, MaxBlocks: 40, MaxTxs: 5, Spec: specLending, Check: CheckC12, ExtraOps: c12ExtraOps,
-	Weights: map[string]int{"amm.join": 12, "amm.exit": 12, "stablestake.bond": 6, "stablestake.unbond": 5, "leveragelp.open": 6, "leveragelp.close": 5, "leveragelp.close_positions": 5,
+	Weights: map[string]int{"amm.join": 12, "amm.exit": 12, "stablestake.bond": 6, "stablestake.unbond": 5, "leveragelp.open": 6, "leveragelp.close": 5, "leveragelp.close_positions": 5, "amm.create_pool": 2,
 		"masterchef.claim": 10, "commitment.commit_claimed": 8, "commitment.uncommit": 8, "commitment.stake": 5, "commitment.unstake": 4, "estaking.withdraw_rewards": 2, "commitment.vest_liquid": 3, "commitment.vest": 5, "commitment.cancel_vest": 3, "commitment.claim_vesting": 3, "commitment.vest_now": 1,
 		"oracle.feed_price": 4, "amm.swap_in": 6},
 	Gaps: []time.Duration{time.Second, 5 * time.Second, 6 * time.Second, 10 * time.Minute, 59 * time.Minute, time.Hour + time.Second, 24*time.Hour + time.Second},
